@@ -400,6 +400,25 @@ class Gen:
             lkey = (container + "::" if container else "") + lf["name"]
             self._emit_fn_text(lkey, indent + lf["sig"] + "\n" + indent, cbody, cline, cline, s.path, indent, rl)
 
+    def emit_sigshim(self, alias, container, name, opts):
+        s = self.src(alias)
+        try:
+            f = s.find_fn(name, container, None)
+        except ParseError as e:
+            raise Undecided(str(e))
+        sig = s.text[f["start"]:f["body_open"]].rstrip()
+        sig = self.apply_rules(sig, ["vis"] + list(opts.get("rules", [])), s.path, f["line"], name)
+        ind = "    " if container else ""
+        if container:
+            self.emit(opts.get("header") or ("impl %s {" % container))
+        self.emit(ind + "#[verifier::external_body]")
+        self.emit(ind + sig.strip() + " { unimplemented!() }", dict(file=s.path, line=f["line"], item=name, kind="sig"))
+        if container:
+            self.emit("}")
+        self.fidelity.append(dict(rule="sigshim", file=s.path, line=f["line"], item=(container + "::" if container else "") + name,
+                                  before="(body not part of this unit)", after=re.sub(r"\s+", " ", sig.strip()),
+                                  trusted="the callee (verified in its own unit); only its current signature is taken from the source"))
+
     def _known_methods(self):
         if getattr(self, "_known", None) is None:
             names = set()
@@ -413,6 +432,8 @@ class Gen:
             for it in self.unit["items"]:
                 if it[0] == "fn":
                     names.add(it[2])
+                elif it[0] == "sigshim":
+                    names.add(it[3])
                 elif it[0] == "impl":
                     names.update(it[3])
             for lfs in self.unit.get("lifts", {}).values():
@@ -850,6 +871,11 @@ class Gen:
                     self.emit_fn(it[1], fnname, container=it[2], trait=opts.get("trait"), indent="    ",
                                  rules=opts.get("rules"))
                 self.emit("}")
+            elif kind == "sigshim":
+                # ("sigshim", alias, container|None, name, {"rules": [...], "header": ...}): an opaque shim whose SIGNATURE is taken
+                # from the real source on every run (so an edit that changes the parameter list is followed instead of
+                # breaking the unit); no body, no contract
+                self.emit_sigshim(it[1], it[2], it[3], it[4] if len(it) > 4 else {})
             elif kind == "raw":
                 self.emit(it[1])
             elif kind == "error_enum":
